@@ -53,6 +53,34 @@ fn code_roundtrip<T: Code + PartialEq + Debug>(x: &T, what: &str, out: &mut Vec<
         }
         Err(e) => out.push(("E.roundtrip".into(), format!("{what}: decode failed: {e}"))),
     }
+    // The same bytes through readers that answer every `read` with at most 1 / 3 bytes (what a streaming
+    // decompressor does at its block boundaries): short reads are legal, the decoded value must not change.
+    // Long inputs only with the 3-byte reader and only up to 64 KiB (a byte at a time is quadratic in some decoders).
+    if buf.len() <= 65536 {
+        for chunk in [1usize, 3] {
+            if chunk == 1 && buf.len() > 4096 {
+                continue;
+            }
+            struct Dribble<'a> {
+                data: &'a [u8],
+                chunk: usize,
+            }
+            impl std::io::Read for Dribble<'_> {
+                fn read(&mut self, out: &mut [u8]) -> std::io::Result<usize> {
+                    let n = self.chunk.min(out.len()).min(self.data.len());
+                    out[..n].copy_from_slice(&self.data[..n]);
+                    self.data = &self.data[n..];
+                    Ok(n)
+                }
+            }
+            let mut r = Dribble { data: &buf[..], chunk };
+            match T::decode(&mut r) {
+                Ok(y) if y == *x => {}
+                Ok(_) => out.push(("E.roundtrip".into(), format!("{what}: decoding through a reader that returns {chunk} byte(s) per read gives a different value"))),
+                Err(e) => out.push(("E.roundtrip".into(), format!("{what}: decoding through a reader that returns {chunk} byte(s) per read failed: {e}"))),
+            }
+        }
+    }
 }
 
 /// Encoding into a destination of every length 0..=needed+1.
